@@ -18,6 +18,7 @@ from ..vfsworld import VfsWorld
 ASSUMPTIONS = [
     'Config::load_project (file open + serde_yaml + name validation) is an environment function returning an already parsed Project per directory: the byte-level clauses of C14 (no panic for any byte string, unknown keys, exactly one kind) concern serde_yaml/yaml-rust and are outside this check',
     'dunce::canonicalize = lexical normalisation on a three-directory universe (injective)',
+    'HashMap iteration order: an arbitrary (solver-chosen) permutation per iteration for maps of 2-3 certainly present entries; insertion order otherwise',
     'reference verdict: Ok iff every import reachable from the root names a project whose own name equals the import key, and the names of the loaded projects are pairwise distinct',
 ]
 
@@ -93,6 +94,8 @@ def explore(repo):
     # reported as a candidate non-termination (confirmed or not on the real binary) instead of making the check inconclusive
     I.diverge_is_outcome = True
     I.depth_bound = 40
+    # HashMap iteration order is arbitrary (RandomState): a solver-chosen permutation per iteration of a fully present map
+    I.symbolic_hash_order = True
     load_fd = prog.find_fn('yaml::Config::load')
     from_fds = [fd for fd in prog.fns_by_name.get('from', []) if fd.module == ('config', 'ir')]
 
@@ -238,10 +241,11 @@ def run(prop, tier, seed, repo, jobs):
         rpath = os.path.join(common.REPLAYS, 'C14-%s.json' % ob['name'])
         os.makedirs(common.REPLAYS, exist_ok=True)
         try:
-            runs = native_case(ob['case'], repo)
+            # the verdict of the real code may depend on this process's HashMap order (RandomState): an acceptance in any of several runs counts
+            runs = native_case(ob['case'], repo, runs=12 if ob['name'] == 'accepted_projects_have_unique_names' else 1)
             rc = runs[0][0]
             if ob['name'] in ('accepted_imports_match_project_names', 'accepted_projects_have_unique_names'):
-                confirmed = rc == 0
+                confirmed = any(r[0] == 0 for r in runs)
             elif ob['name'] == 'valid_arrangements_are_accepted':
                 # the documented rules, evaluated on the concrete arrangement: a valid one must be accepted by the real binary
                 confirmed = concrete_valid(ob['case']) and rc != 0
